@@ -11,9 +11,9 @@ INVS = ["Truthful", "NoInjectedAckLeaks", "InjectedIdsFresh", "CompletionExact",
 
 
 def _cfg(consts, invs=True, spec="MSpec", sample=1):
-    s = ("SPECIFICATION %s\nCONSTANTS MinEp = %d MaxEp = %d MaxInj = %d MaxAcks = %d Tries = %d Interval = 3 Reorder = %d Depth = %d SampleOneIn = %d W = %d\n"
+    s = ("SPECIFICATION %s\nCONSTANTS MinEp = %d MaxEp = %d MaxInj = %d MaxAcks = %d Tries = %d Interval = 3 Reorder = %d Depth = %d SampleOneIn = %d W = %d Disps <- %s\n"
          % (spec, consts.get("MinEp", 1), consts["MaxEp"], consts["MaxInj"], consts["MaxAcks"], consts["Tries"], consts["Reorder"], consts["Depth"], sample,
-            consts.get("W", 0)))
+            consts.get("W", 0), consts.get("Disps", "DispsCore")))
     if invs:
         s += "".join("INVARIANT %s\n" % i for i in INVS)
     if spec == "SSpec":
@@ -37,6 +37,20 @@ class DropAddon:
             self.copy = message.take()
             region.circuit.send(self.copy)
             return None
+        if self.drop_next == "droptake":
+            # drop the original first, then send a copy made from the (now finalized) original
+            self.drop_next = False
+            region.circuit.drop_message(message)
+            self.copy = message.take()
+            region.circuit.send(self.copy)
+            return True
+        if self.drop_next == "fwdtake":
+            # send the original on, then a copy of it (what addon_examples/message_mirror.py does)
+            self.drop_next = False
+            region.circuit.send(message)
+            self.copy = message.take()
+            region.circuit.send(self.copy)
+            return True
         if self.drop_next:
             self.drop_next = False
             region.circuit.drop_message(message)
@@ -45,6 +59,7 @@ class DropAddon:
 
 
 _WINDOW = None     # tracker window of the configuration being replayed (None = the code's default 10000)
+_UNIT = 1.0        # seconds per model clock unit: Circuit.resend_every is configured to Interval (3) units
 
 
 class Impl:
@@ -54,6 +69,7 @@ class Impl:
         self.addon = DropAddon()
         self.env = proxyenv.ProxyEnv(addons=[self.addon], tracker_window=_WINDOW)
         self.env.protocol.resend_task.cancel()
+        self.env.circuit.resend_every = 3 * _UNIT
         self.futs = {}
         self.loop = asyncio.get_event_loop_policy().get_event_loop()
 
@@ -72,7 +88,7 @@ class Impl:
                 m = pe.ping(d, act["k"], reliable=act["rel"], acks=act["a1"], resent=act["resend"])
             else:
                 m = pe.packet_ack(d, act["k"], act["a2"], acks=act["a1"], resent=act["resend"])
-            self.addon.drop_next = {"drop": True, "take": "take"}.get(act["disp"], False)
+            self.addon.drop_next = {"drop": True, "take": "take", "droptake": "droptake", "fwdtake": "fwdtake"}.get(act["disp"], False)
             self.addon.seen = None
             self.addon.copy = None
             exc = env.deliver(m)
@@ -104,7 +120,7 @@ class Impl:
             except Exception as e:  # noqa
                 exc = type(e).__name__ + ": " + str(e)[:100]
         else:
-            env.clock.advance(float(act["dt"]))
+            env.clock.advance(float(act["dt"]) * _UNIT)
             try:
                 env.circuit.resend_unacked()
             except Exception as e:  # noqa
@@ -158,7 +174,7 @@ def _diff(act, obs, got):
     if ed != got["done"]:
         bad.append(("completed futures", ed, got["done"]))
     if act["n"] == "Send" and got["flags"] is not None:
-        want = {"finalized": True, "dropped": act["disp"] in ("drop", "take")}
+        want = {"finalized": True, "dropped": act["disp"] in ("drop", "take", "droptake")}
         if got["flags"] != want:
             bad.append(("message flags", want, got["flags"]))
     return bad
@@ -240,8 +256,9 @@ def _report(chk, label, results):
 
 def _b1_sim(chk: Check, consts, label, num, sample):
     """Sampled deep behaviours (TLC -simulate), each replayed step by step."""
-    global _B, _WINDOW
+    global _B, _WINDOW, _UNIT
     _WINDOW = consts.get("W") or None
+    _UNIT = consts.get("Unit", 1.0)
     cfgp = os.path.join(chk.scratch, "sim-%s.cfg" % label)
     with open(cfgp, "w") as f:
         f.write(_cfg(consts, spec="SSpec", sample=sample))
@@ -268,8 +285,9 @@ def _b1_sim(chk: Check, consts, label, num, sample):
 
 
 def _b1(chk: Check, consts, label, pairs=None):
-    global _G, _WINDOW
+    global _G, _WINDOW, _UNIT
     _WINDOW = consts.get("W") or None
+    _UNIT = consts.get("Unit", 1.0)
     recs = common.export_records(chk, "ProxiedCircuit_MBT", _cfg(consts), label)
     # the export run also checked every invariant on every state it generated
     chk.cov["tlc_runs"][-1]["invariants"] = INVS
@@ -300,20 +318,23 @@ def run(chk: Check):
     chk.assumptions += ["with a small tracker window (configs evict-*) the environment only sends/acknowledges IDs above the newest aged-out injection (C04's horizon)", "no packet-ID wrap-around", "endpoint packet IDs start at 1 (viewer, simulator) or at 0 (hippolyzer's own client endpoint: configs from0-*)",
                         "a dropped standalone PacketAck may lose its Packets blocks (the property only claims piggy-backed acks of a dropped packet)",
                         "the packet ID of the PacketAck that carries a dropped packet's appended acks is the proxy's choice",
-                        "virtual clock replaces datetime in hippolyzer.lib.base.message.circuit; resend_unacked is called after every tick"]
+                        "virtual clock replaces datetime in hippolyzer.lib.base.message.circuit; resend_unacked is called after every tick",
+                        "the configured cadence Circuit.resend_every is 3 model clock units; a unit is 1 s (the default 3.0 s), 0.5 s or 0.25 s depending on the configuration"]
     if chk.tier == "quick":
-        _b1(chk, dict(MaxEp=2, MaxInj=2, MaxAcks=2, Tries=10, Reorder=1, Depth=4), "exhaustive-d4")
+        _b1(chk, dict(MaxEp=2, MaxInj=2, MaxAcks=2, Tries=10, Reorder=1, Depth=4, Unit=0.5), "exhaustive-d4")
         _b1(chk, dict(MinEp=0, MaxEp=1, MaxInj=1, MaxAcks=1, Tries=10, Reorder=1, Depth=3), "from0-d3", pairs=2000)
-        _b1_sim(chk, dict(MaxEp=3, MaxInj=3, MaxAcks=2, Tries=10, Reorder=1, Depth=9), "simulate-d9", 150, 12)
+        _b1(chk, dict(MaxEp=2, MaxInj=3, MaxAcks=1, Tries=10, Reorder=0, Depth=3, Disps="DispsTakes"), "takes-d3", pairs=2000)
+        _b1_sim(chk, dict(MaxEp=3, MaxInj=3, MaxAcks=2, Tries=10, Reorder=1, Depth=9, Disps="DispsAll"), "simulate-d9", 150, 12)
         _b1_sim(chk, dict(MinEp=0, MaxEp=2, MaxInj=3, MaxAcks=2, Tries=10, Reorder=1, Depth=9), "simulate-from0-d9", 80, 12)
-        _b1_sim(chk, dict(MaxEp=1, MaxInj=1, MaxAcks=1, Tries=10, Reorder=0, Depth=14), "budget-d14", 300, 3)
+        _b1_sim(chk, dict(MaxEp=1, MaxInj=1, MaxAcks=1, Tries=10, Reorder=0, Depth=14, Unit=0.25), "budget-d14", 300, 3)
         _b1_sim(chk, dict(MaxEp=3, MaxInj=4, MaxAcks=1, Tries=10, Reorder=1, Depth=10, W=1), "evict-W1-d10", 150, 10)
     else:
-        _b1(chk, dict(MaxEp=2, MaxInj=2, MaxAcks=2, Tries=10, Reorder=1, Depth=5), "exhaustive-d5")
+        _b1(chk, dict(MaxEp=2, MaxInj=2, MaxAcks=2, Tries=10, Reorder=1, Depth=5, Unit=0.5), "exhaustive-d5")
         _b1(chk, dict(MinEp=0, MaxEp=1, MaxInj=2, MaxAcks=2, Tries=10, Reorder=1, Depth=5), "from0-d5")
         _b1_sim(chk, dict(MinEp=0, MaxEp=2, MaxInj=3, MaxAcks=2, Tries=10, Reorder=1, Depth=10), "simulate-from0-d10", 2500, 12)
-        _b1_sim(chk, dict(MaxEp=3, MaxInj=3, MaxAcks=2, Tries=10, Reorder=1, Depth=10), "simulate-d10", 2500, 12)
-        _b1_sim(chk, dict(MaxEp=1, MaxInj=1, MaxAcks=1, Tries=10, Reorder=0, Depth=16), "budget-d16", 5000, 3)
+        _b1(chk, dict(MaxEp=2, MaxInj=3, MaxAcks=2, Tries=10, Reorder=1, Depth=4, Disps="DispsTakes"), "takes-d4")
+        _b1_sim(chk, dict(MaxEp=3, MaxInj=3, MaxAcks=2, Tries=10, Reorder=1, Depth=10, Disps="DispsAll"), "simulate-d10", 2500, 12)
+        _b1_sim(chk, dict(MaxEp=1, MaxInj=1, MaxAcks=1, Tries=10, Reorder=0, Depth=16, Unit=0.25), "budget-d16", 5000, 3)
         _b1_sim(chk, dict(MaxEp=3, MaxInj=4, MaxAcks=1, Tries=10, Reorder=1, Depth=11, W=1), "evict-W1-d11", 2500, 10)
         _b1_sim(chk, dict(MaxEp=3, MaxInj=5, MaxAcks=1, Tries=10, Reorder=1, Depth=12, W=2), "evict-W2-d12", 2500, 10)
     chk.cov["exhaustive"] = True
